@@ -551,6 +551,15 @@ func (p *c09Provider) BuilderBid(ctx context.Context, slot phase0.Slot, parentHa
 	return p.real.BuilderBid(ctx, slot, parentHash, pubkey, proposerConfig, builderConfigs)
 }
 
+// c09LogResults decides blockrelay.log-results for an instance from its name: on for about half of the histories.
+func c09LogResults(uniq string) bool {
+	h := 0
+	for _, c := range uniq {
+		h = h*31 + int(c)
+	}
+	return h%2 == 0
+}
+
 type c09Instance struct {
 	env        *c09Env
 	ctx        context.Context
@@ -688,6 +697,9 @@ func (e *c09Env) newInstance(variant string, family string, nrel int, builderCon
 		WithReleaseVersion("verif"),
 		WithBuilderBidProvider(bidProvider),
 		WithBuilderConfigs(serviceBuilderConfigs),
+		// blockrelay.log-results (main.go: startBlockRelay) is part of the configuration the histories range over:
+		// the participation report at the end of an auction runs with and without it
+		WithLogResults(c09LogResults(uniq)),
 	)
 	if err != nil {
 		t.Fatalf("block relay service: %v", err)
